@@ -19,7 +19,7 @@ impl E2Part for Children {
     }
     fn cases(&self, tier: Tier) -> usize {
         match tier {
-            Tier::Quick => 2_000,
+            Tier::Quick => 4_000,
             Tier::Thorough => 40_000,
         }
     }
@@ -58,7 +58,7 @@ impl E2Part for Parents {
     }
     fn cases(&self, tier: Tier) -> usize {
         match tier {
-            Tier::Quick => 1_200,
+            Tier::Quick => 2_400,
             Tier::Thorough => 24_000,
         }
     }
